@@ -430,7 +430,7 @@ func (h *Hub) topicUnreg(sess *Session, topic string, msg *ClientComMessage, rea
 				t.markDeleted()
 				t.exit <- &shutDown{reason: StopDeleted}
 				statsInc("LiveTopics", -1)
-			} else {
+			} else if msg != nil {
 				// Case 1.1.2: requester is NOT the owner or not empty P2P.
 				msg.MetaWhat = constMsgDelTopic
 				msg.sess = sess
@@ -438,6 +438,11 @@ func (h *Hub) topicUnreg(sess *Session, topic string, msg *ClientComMessage, rea
 			}
 		} else {
 			// Case 1.2: topic is offline.
+
+			if msg == nil {
+				// Server-initiated request (nobody to reply to) and the topic has already been unloaded.
+				return nil
+			}
 
 			// Is user a channel subscriber? Use chnABC instead of grpABC and get only this user's subscription.
 			var opts *types.QueryOpt
